@@ -16,7 +16,8 @@ META = {
                'leave c (mis-nested), convert} with 3 money converters of distinct constant rates: all histories of '
                'length <= 3 (quick) / 4 (thorough); real nested with-statements of depth <= 3 left normally or by '
                'exception; generic type with 3 callable converters (one returning None for some pairs): histories of '
-               'length <= 4 (quick) / 5 (thorough)',
+               'length <= 4 (quick) / 5 (thorough), also unobserved until their last step ("blind": money one step '
+               'longer) and with converters mentioned as fresh bound methods / equal wrapper objects, these starting with the registration of the first converter',
                'inductive step (any history length): every stack content of length <= 4 over the 3 converters (121 '
                'states) installed directly, one operation with every argument applied, post-state compared with the '
                'reference stack; AST census of every use of `_converters` under src/quantity',
@@ -42,6 +43,8 @@ def jobs(tier, seed):
     depth = 3 if tier == 'quick' else 4
     for first in range(len(MONEY_OPS)):
         out.append({'fn': 'money_history', 'cfg': {'first': first, 'depth': depth}})
+        if MONEY_OPS[first] in (('reg', 0), ('enter', 0)):
+            out.append({'fn': 'money_history', 'cfg': {'first': first, 'depth': depth + 1, 'blind': True}})
     stacks = [[]]
     for n in range(1, 5):
         stacks += [list(t) for t in _tuples(3, n)]
@@ -51,6 +54,11 @@ def jobs(tier, seed):
     gdepth = 4 if tier == 'quick' else 5
     for first in range(len(GEN_OPS)):
         out.append({'fn': 'generic_history', 'cfg': {'first': first, 'depth': gdepth}})
+        if GEN_OPS[first] == ('reg', 0):
+            # the same histories unobserved until the end; converters mentioned as bound methods / equal wrappers
+            out.append({'fn': 'generic_history', 'cfg': {'first': first, 'depth': gdepth, 'blind': True}})
+            out.append({'fn': 'generic_history', 'cfg': {'first': first, 'depth': gdepth, 'kind': 'method'}})
+            out.append({'fn': 'generic_history', 'cfg': {'first': first, 'depth': gdepth, 'kind': 'eq-callable'}})
     out.append({'fn': 'census', 'cfg': {}})
     out.append({'fn': 'money_history', 'cfg': {'first': 0, 'depth': 2, 'canary': True}, 'canary': True})
     LAST_CONFIG_INFO.clear()
@@ -84,14 +92,25 @@ def _setup_money():
     return Money, eur, usd, convs
 
 
-def _check_state(E, Money, convs, ref, a, eur, usd, tag):
-    """real converter list and conversion behaviour agree with the reference stack"""
-    from decimalfp import get_dflt_rounding_mode
-    from quantity import UnitConversionError
+def _check_list(E, Money, convs, ref, tag):
     real = list(Money.registered_converters())
     E.check(len(real) == len(ref) and all(x is convs[i] for x, i in zip(real, reversed(ref))),
             'converter-list-matches-reference-stack', key='money:list-' + tag,
             info=[[convs.index(x) if x in convs else '?' for x in real], list(reversed(ref))])
+
+
+def _check_state(E, Money, convs, ref, a, eur, usd, tag, list_first=True):
+    """real converter list and conversion behaviour agree with the reference stack"""
+    if list_first:
+        _check_list(E, Money, convs, ref, tag)
+    _check_conversions(E, Money, convs, ref, a, eur, usd, tag)
+    if not list_first:
+        _check_list(E, Money, convs, ref, tag)
+
+
+def _check_conversions(E, Money, convs, ref, a, eur, usd, tag):
+    from decimalfp import get_dflt_rounding_mode
+    from quantity import UnitConversionError
     m = Money(a, eur)
     if not ref:
         C.expect_raises(E, lambda: m.convert(usd), UnitConversionError, 'no-converter-conversion-raises')
@@ -125,9 +144,11 @@ def _apply_money_op(E, Money, convs, ref, op, arg):
         r = convs[arg].__enter__()
         E.check(r is convs[arg], 'enter-returns-converter')
         ref.append(arg)
-    elif op in ('unreg', 'leave-c'):
+    elif op in ('unreg', 'leave-c', 'leave-c-exc'):
+        err = RuntimeError('boom')
         fn = (lambda: Money.remove_converter(convs[arg])) if op == 'unreg' else \
-            (lambda: convs[arg].__exit__(None, None, None))
+            (lambda: convs[arg].__exit__(None, None, None)) if op == 'leave-c' else \
+            (lambda: convs[arg].__exit__(RuntimeError, err, None))
         if ref and ref[-1] == arg:
             try:
                 fn()
@@ -160,7 +181,12 @@ def money_history(E, cfg):
     a = E.rational('a', 'dec')
     ref = []
     E.check(len(list(Money.registered_converters())) == 0, 'initially-no-converter')
-    ops = MONEY_OPS + [('leave-c', 0), ('leave-c', 1)]
+    ops = MONEY_OPS + [('leave-c', 0), ('leave-c', 1), ('leave-c-exc', 0), ('leave-c-exc', 1)]
+    if cfg.get('blind'):
+        ops = [('reg', 0), ('reg', 1), ('enter', 0), ('enter', 1), ('unreg', 0), ('unreg', 1), ('leave', None),
+               ('leave-exc', None), ('convert', None)]
+    # blind: nothing is observed between the operations (a look-up in between could refresh derived state)
+    blind = cfg.get('blind', False)
     for step in range(cfg['depth']):
         if step == 0:
             op, arg = MONEY_OPS[cfg['first']]
@@ -168,8 +194,12 @@ def money_history(E, cfg):
             op, arg = E.choice('op%d' % step, ops)
         if op != 'convert':
             _apply_money_op(E, Money, convs, ref, op, arg)
-        _check_state(E, Money, convs, ref, a, eur, usd, 'history')
+        elif blind:
+            _check_conversions(E, Money, convs, ref, a, eur, usd, 'history-blind')      # a look-up, but not of the list
         stop = E.choice('stop%d' % step, [False, True]) if step < cfg['depth'] - 1 else True
+        if not blind or stop:
+            _check_state(E, Money, convs, ref, a, eur, usd, 'history-blind' if blind else 'history',
+                         list_first=not blind)
         if stop:
             break
     # unwind everything: behaviour as before the first registration
@@ -188,7 +218,8 @@ def money_step(E, cfg):
     Money._converters[:] = [convs[i] for i in stack]
     ref = list(stack)
     _check_state(E, Money, convs, ref, a, eur, usd, 'installed')
-    ops = MONEY_OPS + [('leave-c', 0), ('leave-c', 1), ('leave-c', 2)]
+    ops = MONEY_OPS + [('leave-c', 0), ('leave-c', 1), ('leave-c', 2), ('leave-c-exc', 0), ('leave-c-exc', 1),
+                       ('leave-c-exc', 2)]
     op, arg = E.choice('op', ops)
     before = list(ref)
     if op != 'convert':
@@ -240,29 +271,91 @@ GEN_OPS = [('reg', 0), ('reg', 1), ('reg', 2), ('rem', 0), ('rem', 1), ('rem', 2
 FACTORS = [Fraction(2), Fraction(3), Fraction(5)]
 
 
-def _setup_generic():
+class _Getter:
+    """convs[i] -> the converter as the caller would mention it (a fresh bound method object each time for kind
+    'method': `obj.convert` is equal to, but not identical with, an earlier `obj.convert`)"""
+
+    def __init__(self, items, attr=None):
+        self.items, self.attr = items, attr
+
+    def __getitem__(self, i):
+        return getattr(self.items[i], self.attr) if self.attr else self.items[i]
+
+    def index_of(self, x):
+        for i in range(len(self.items)):
+            if x == self[i]:
+                return i
+        return '?'
+
+
+def _setup_generic(kind='function'):
     T = C.mk_cls('GScale')
     ua, ub, uc = T.new_unit('ga'), T.new_unit('gb'), T.new_unit('gc')
 
+    def body(i, qty, to_unit):
+        if i == 2 and (qty.unit is ua or to_unit is ua):
+            return None                    # converter 2 does not know unit ga
+        if qty.unit is to_unit:
+            return qty.amount
+        return qty.amount * FACTORS[i]
+
     def mk(i):
         def conv(qty, to_unit):
-            if i == 2 and (qty.unit is ua or to_unit is ua):
-                return None                    # converter 2 does not know unit ga
-            if qty.unit is to_unit:
-                return qty.amount
-            return qty.amount * FACTORS[i]
+            return body(i, qty, to_unit)
         conv.__name__ = 'conv%d' % i
         return conv
-    return T, (ua, ub, uc), [mk(0), mk(1), mk(2)]
+
+    class Table:
+        def __init__(self, i):
+            self.i = i
+
+        def convert(self, qty, to_unit):
+            return body(self.i, qty, to_unit)
+
+    class EqCallable:
+        """a callable wrapper comparing by what it wraps; every mention builds a new wrapper"""
+
+        def __init__(self, i):
+            self.i = i
+
+        def __call__(self, qty, to_unit):
+            return body(self.i, qty, to_unit)
+
+        def __eq__(self, other):
+            return isinstance(other, EqCallable) and other.i == self.i
+
+        def __hash__(self):
+            return hash(self.i)
+
+    class Fresh:
+        def __getitem__(self, i):
+            return EqCallable(i)
+
+        def index_of(self, x):
+            return getattr(x, 'i', '?')
+
+    if kind == 'function':
+        convs = _Getter([mk(0), mk(1), mk(2)])
+    elif kind == 'method':
+        convs = _Getter([Table(0), Table(1), Table(2)], 'convert')
+    else:
+        convs = Fresh()
+    return T, (ua, ub, uc), convs
 
 
-def _check_generic(E, T, units, convs, ref, a, tag):
+def _check_generic_list(E, T, convs, ref, tag, kind):
+    real = list(T.registered_converters())
+    same = (lambda x, y: x is y) if kind == 'function' else (lambda x, y: x == y)
+    E.check(len(real) == len(ref) and all(same(x, convs[i]) for x, i in zip(real, reversed(ref))),
+            'generic-converter-list-matches-reference', key='generic:list-' + tag,
+            info=[[convs.index_of(x) for x in real], list(reversed(ref)), kind])
+
+
+def _check_generic(E, T, units, convs, ref, a, tag, kind='function', list_first=True):
     from quantity import Quantity, UnitConversionError
     ua, ub, uc = units
-    real = list(T.registered_converters())
-    E.check(len(real) == len(ref) and all(x is convs[i] for x, i in zip(real, reversed(ref))),
-            'generic-converter-list-matches-reference', key='generic:list-' + tag,
-            info=[[convs.index(x) if x in convs else '?' for x in real], list(reversed(ref))])
+    if list_first:
+        _check_generic_list(E, T, convs, ref, tag, kind)
     for (src, dst) in ((ua, ub), (ub, uc)):
         q = Quantity(a, src)
         expected = None
@@ -282,11 +375,15 @@ def _check_generic(E, T, units, convs, ref, a, tag):
                        info=[list(ref)])
                 continue
             E.check(r.unit is dst and r.amount == a * expected, 'generic-first-non-none-most-recent-first',
-                    key='generic:convert-' + tag, info=[list(ref)])
+                    key='generic:convert-' + tag, info=[list(ref), kind])
+    if list_first is False:
+        _check_generic_list(E, T, convs, ref, tag, kind)
 
 
 def generic_history(E, cfg):
-    T, units, convs = _setup_generic()
+    kind = cfg.get('kind', 'function')
+    blind = cfg.get('blind', False)
+    T, units, convs = _setup_generic(kind)
     a = E.rational('a', 'dec')
     ref = []
     for step in range(cfg['depth']):
@@ -305,10 +402,22 @@ def generic_history(E, cfg):
                     ref.remove(arg)
             else:
                 C.expect_raises(E, lambda: T.remove_converter(convs[arg]), ValueError, 'generic-remove-absent-raises')
-        _check_generic(E, T, units, convs, ref, a, 'history')
+        elif op == 'convert' and blind:
+            _check_generic(E, T, units, convs, ref, a, 'history-blind', kind, list_first=None)
         stop = E.choice('stop%d' % step, [False, True]) if step < cfg['depth'] - 1 else True
+        if not blind or stop:
+            _check_generic(E, T, units, convs, ref, a, 'history-blind' if blind else 'history', kind,
+                           list_first=not blind)
         if stop:
             break
+    # remove everything: behaviour as before the first registration
+    for i in list(reversed(ref)):
+        try:
+            T.remove_converter(convs[i])
+        except Exception as e:
+            E.fail('generic-remove-registered', key='generic:unwind-remove-raises-%s' % type(e).__name__)
+        ref.remove(i)
+    _check_generic(E, T, units, convs, ref, a, 'unwound', kind)
 
 
 def census(E, cfg):
